@@ -37,6 +37,7 @@ ASSUMPTIONS = [
 ]
 
 CHECKED_PREFIX = ("fit:", "use:", "refit:")
+LATE = []  # (history, threads, models whose document/prediction changed between their fit and the end of the history, models kept)
 
 
 def run_history(hist, threads=None, env_over=None, cache_dir=None, timeout=1500):
@@ -58,7 +59,9 @@ def run_history(hist, threads=None, env_over=None, cache_dir=None, timeout=1500)
     r = subprocess.run(cmd, cwd=env.VERIF_DIR, env=e, capture_output=True, text=True, timeout=timeout)
     for line in r.stdout.splitlines():
         if line.startswith("C03RESULT "):
-            return json.loads(line[len("C03RESULT "):])
+            res = json.loads(line[len("C03RESULT "):])
+            LATE.append((hist, threads, res.get("late", []), res.get("kept", 0)))
+            return res
     raise poolmod.HarnessError(f"worker for {hist} {threads} gave no result (exit {r.returncode}): {r.stderr[-1500:]}")
 
 
@@ -243,7 +246,16 @@ def run(tier, seed):
             for op, r in zip(h, res["ops"]):
                 judge(op, r, "randomised_optimiser_profile" if h in RAND_HISTORIES else "process_timezone" if hs.startswith("tz:") else "string_hash_seed",
                       f"{'TZ=' + hs[3:] if hs.startswith('tz:') else 'PYTHONHASHSEED=' + hs} history {h}")
+    # ---- every model fitted anywhere above was serialised and used again at the end of its process
+    late_models = 0
+    for hist, threads, late, kept in LATE:
+        late_models += kept
+        for l in late:
+            viol.append({"clause": "fitted_model_differs_when_read_after_later_operations", "key": {"family": l["fit"].split(":")[0]},
+                         "detail": f"history {hist} threads {threads}: the model fitted by {l['fit']} gave (doc, pred) {l['then']} right after its fit "
+                                   f"and {l['now']} at the end of the process"})
     cov = {
+        "models_read_again_at_end_of_process": late_models,
         "states": max(len(seen), 1), "transitions": max(edges, 1), "traces_validated_against_impl": edges,
         "evaluations": stats["processes"], "distinct_nontrivial": len(seen) + n_sched,
         "rule": "S: a history of operations run in a fresh interpreter; distinct = distinct process-global fingerprints reached; "
